@@ -2,7 +2,12 @@
 
 package file
 
-import "golang.org/x/crypto/ssh"
+import (
+	"time"
+
+	"github.com/edutko/decipher/internal/openpgp/packet"
+	"golang.org/x/crypto/ssh"
+)
 
 // Re-exports for /verif/harness (overlay file; exists only in the `verif` build).
 
@@ -19,3 +24,23 @@ func VerifSSHPublicKeyAttributes(blob []byte) ([]Attribute, bool) {
 	return sshPublicKeyAttributes(pk, ""), true
 }
 func VerifJksLengthsPlausible(b []byte) bool { return jksLengthsPlausible(b) }
+
+// VerifGpgDates: what gpgSignatureAttributes shows as "Created" / "Expires" for a self-signature made at sigCreated over a
+// key created at keyCreated with the given key lifetime (-1: no key expiration subpacket)
+func VerifGpgDates(keyCreated, sigCreated uint32, lifetime int64) (created, expires string) {
+	var lp *uint32
+	if lifetime >= 0 {
+		v := uint32(lifetime)
+		lp = &v
+	}
+	s := &packet.Signature{CreationTime: time.Unix(int64(sigCreated), 0), KeyLifetimeSecs: lp}
+	for _, a := range gpgSignatureAttributes(s, time.Unix(int64(keyCreated), 0)) {
+		switch a.Name {
+		case "Created":
+			created = a.Value
+		case "Expires":
+			expires = a.Value
+		}
+	}
+	return
+}
